@@ -115,7 +115,8 @@ void drv_init (int thorough) {
   for (const char *p = ol; *p && n_opts < 4; p++) if (*p >= '0' && *p <= '3') opt_levels[n_opts++] = *p - '0';
   const char *bs = getenv ("VP_C20_BATCH"); if (bs) batch_size = strtoull (bs, NULL, 10);
   fam_first[fam_lo] = 0;
-  for (int i = fam_lo; i < fam_hi; i++) fam_first[i + 1] = fam_first[i] + FAM (i)->count (thorough);
+  /* variables tied to hard registers have no C counterpart in the translator and are not in the property's program class: that family is left out */
+  for (int i = fam_lo; i < fam_hi; i++) fam_first[i + 1] = fam_first[i] + (strstr (FAM (i)->name, "hard-register") ? 0 : FAM (i)->count (thorough));
 }
 uint64_t drv_ncases (void) { return fam_first[fam_hi]; }
 static const family *locate (uint64_t idx, uint64_t *local, int *fi) {
